@@ -20,7 +20,7 @@ from vf.api import Generated, HarnessError, Violation
 PROPERTY = "C11"
 LEVEL = "exploration"
 RULE = (
-    "case = (engine label_length None|6-30, shape join|sub|cte|union|text_pos|text_name|text_loose|text_plain, 1-3 FROM elements over 3 tables with colliding "
+    "case = (engine label_length None|6-30, shape join|sub|cte|union|cache_swap|text_pos|text_name|text_loose|text_plain, 1-3 FROM elements over 3 tables with colliding "
     "column names (named / anonymous aliases, self-joins; element k is joined with id offset k so every element yields different values), 1-6 "
     "select-list expressions of kind col|label|add|addlabel|neg|func|funclabel|lit|litlabel|bind with label names drawn from a colliding pool, label "
     "style none|tpc|dis, optional second execution of an identically rebuilt statement (compiled-cache path)). Non-trivial: >=2 selected expressions "
@@ -33,6 +33,8 @@ ASSUMPTIONS = [
     "and the natural names of the expressions (explicit label, column name, function name, legacy tablename_colname): a natural name that is not a result key may raise NoSuchColumnError, "
     "but if it answers it must be the value of an expression carrying that name and must not answer when >=2 expressions carry it",
     "inner selects of subqueries / CTEs use a de-duplicating label style (DISAMBIGUATE_ONLY / TABLENAME_PLUS_COL) so the derived table has unique column names",
+    "cache_swap: anonymous aliases / anonymous subqueries of one table and anonymous labels over bound literals are built once; statement 2 is statement 1 with these objects trading roles throughout "
+    "(same cache key); executed 1,2,1,2 on one engine, every lookup must follow the invoked statement's positions (class cache-swap-hit-objects-moved = all later executions were cache hits)",
     "union rows are matched as a multiset by their positional values; lookups are then compared with the same row's positional values",
     "text().columns(): positional form matches by position whatever the names; keyword (by-name) form requires the SQL names to match; text_loose = Table columns plus one keyword column "
     "(name matching, one context column per SQL column): a column name the SQL returns twice must make its Column objects raise Ambiguous, a legacy tablename_colname match is tolerated either way",
@@ -210,6 +212,9 @@ def _known_exclusions_simple(recs, case, info):
         a_like = [r for r in recs if (r["kind"] in ("col", "neg") and r["cname"] == "a" and not r["label"]) or r["kind"] in ("add", "func")]
         if len(a_like) >= 2 and any(r["kind"] in ("col", "neg") for r in a_like):
             trig.append(EXCL_RC1_TRUNC)
+        elif len({r["colid"] for r in recs if r["kind"] in ("col", "neg") and r["cname"] == "x_1" and not r["label"]}) >= 2:
+            # the de-duplicated second column x_1_1 is truncated to x_1, the first column's own name
+            trig.append(EXCL_RC1_TRUNC)
     plain = [r for r in recs if r["kind"] == "col"] if EXCL_RC1_TRUNC not in trig else []
     for r in plain:
         if sum(1 for q in plain if q["colid"] == r["colid"]) > 1 and any(
@@ -270,6 +275,12 @@ def _lookup(row, key):
         if "Ambiguous column name" in str(e):
             return ("ambiguous", None)
         raise
+
+
+def _is_plain_column_named(o, s):
+    from sqlalchemy.sql.elements import ColumnClause
+
+    return isinstance(o, ColumnClause) and o.name == s
 
 
 def _verify(result, objs, names, expected, case, classes, info, ordered=True, where="", soft=None, tokens=None):
@@ -356,6 +367,11 @@ def _verify(result, objs, names, expected, case, classes, info, ordered=True, wh
                 continue
             if res[1] not in [exp[p] for p in pos]:
                 raise Violation(cfn("string-key/natural-name-wrong-column", s), f"{where}row._mapping[{s!r}] = {res[1]!r} which is not the value of any expression named {s!r} (positions {pos}, row {exp!r}, keys {keys!r})", observed=repr(res[1]), expected=repr([exp[p] for p in pos]))
+            if len(pos) > 1 and info.get("style") == "dis" and res[1] == exp[pos[0]] and _is_plain_column_named(objs[pos[0]], s):
+                # DISAMBIGUATE_ONLY: the first column keeps its name, later ones are renamed name_N; when label_length
+                # truncates the keys the plain name still designates the first one
+                classes.add("natural-name-first-of-deduplicated")
+                continue
             if len(pos) > 1 and len({tokens[p] for p in pos}) > 1 and len({tuple(e[p] for e in expected) for p in pos}) > 1:
                 raise Violation(cfn("string-key/shared-natural-name-answered", s), f"{where}row._mapping[{s!r}] answered {res[1]!r} although {len(pos)} selected expressions carry that name (positions {pos}, row {exp!r}, keys {keys!r})", observed=repr(res[1]), expected="InvalidRequestError: Ambiguous column name (or NoSuchColumnError)")
             classes.add("natural-name-answered")
@@ -407,6 +423,7 @@ def _shape_join(world, case, classes, info):
     def build():
         stmt, exprs, base = _join_select(world, case, info)
         info["legacy_names"] = {x.tq for x in exprs if x.tq}
+        info["style"] = case["style"]
         expected = [tuple(x.fn(r) for x in exprs) for r in range(1, NBASE + 1)]
         return stmt, [x.obj for x in exprs], [x.names for x in exprs], expected, True
 
@@ -453,11 +470,110 @@ def _shape_sub(world, case, classes, info):
                              tq=(f"{name}_{c.name}" if (name and kind == "col") else None), colid=id(c)))
         _known_exclusions_simple(recs, case, info)
         info["legacy_names"] = {r["tq"] for r in recs if r["tq"]}
+        info["style"] = case["outer"]["style"]
         outer = select(*objs).order_by(sc[-1]).set_label_style(_style(case["outer"]["style"]))
         expected = [tuple(f(r) for f in fns) for r in range(1, NBASE + 1)]
         return outer, objs, names, expected, True
 
     _run_compiled(world, case, classes, info, build)
+
+
+def _shape_cache_swap(world, case, classes, info):
+    """compiled-cache hit with the SAME column / label objects at DIFFERENT positions: n anonymous aliases (or anonymous
+    subqueries) of one table and m anonymous labels over bound literals are built once and kept alive; statement 1 uses
+    them in order, statement 2 is the same construction with the elements / literals trading roles throughout (same cache
+    key, anonymous names are positional in it).  Lookups on each result must follow the INVOKED statement's positions."""
+    from sqlalchemy import literal, select
+    from sqlalchemy.engine.default import CacheStats
+
+    cs = case["swap"]
+    k = cs["t"] % 3
+    t = world.tables[k]
+    n = 2 + cs["n"] % 2
+    elems = [(select(t).subquery() if cs["sub"] else t.alias()) for _ in range(n)]
+    nlit = 2 + cs["nlit"] % 2
+    lits = [literal(80000 + q).label(None) for q in range(nlit)]
+    specs = []  # (kind, role/literal index, column index)
+    for sp in case["cols"]:
+        kind = {"col": "col", "label": "col", "neg": "col", "func": "col", "funclabel": "col", "add": "add", "addlabel": "add", "lit": "lit", "litlabel": "lit", "bind": "lit"}[sp["kind"]]
+        specs.append((kind, sp["e"], sp["c"] % 4))
+    # anonymous labels over an expression of each element's column: one object per (element, column), reused at other positions
+    addlabels = {}
+
+    def addlabel(e, j):
+        if (e, j) not in addlabels:
+            addlabels[(e, j)] = (elems[e].c[TDEFS[k][1][j]] + 10000).label(None)
+        return addlabels[(e, j)]
+
+    def perm_of(seed, size):
+        items = list(range(size))
+        out = []
+        for i in range(size, 0, -1):
+            out.append(items.pop(seed % i))
+            seed //= i
+        return out
+
+    perms = [(list(range(n)), list(range(nlit))), (perm_of(cs["perm"], n), perm_of(cs["lperm"], nlit))]
+    if perms[1] == perms[0]:
+        perms[1] = (list(reversed(range(n))), list(reversed(range(nlit))))
+
+    def build(pe, pl):
+        role = [elems[i] for i in pe]
+        frm = role[0]
+        for d in range(1, n):
+            frm = frm.join(role[d], role[d].c.id == role[0].c.id + d)
+        objs, fns, names, recs = [], [], [], []
+        for kind, idx, j in specs:
+            cname = TDEFS[k][1][j]
+            if kind == "lit":
+                q = pl[idx % nlit]
+                objs.append(lits[q])
+                fns.append(lambda r, q=q: 80000 + q)
+                names.append(set())
+                recs.append(dict(kind="bind", label=None, cname=None, tq=None, colid=id(lits[q])))
+                continue
+            r_i = idx % n
+            e = pe[r_i]
+            if kind == "col":
+                o = elems[e].c[cname]
+                objs.append(o)
+                fns.append(lambda r, j=j, r_i=r_i: _val(k, j, r + r_i))
+                names.append({cname})
+                recs.append(dict(kind="col", label=None, cname=cname, tq=None, colid=id(o)))
+            else:
+                o = addlabel(e, j)
+                objs.append(o)
+                fns.append(lambda r, j=j, r_i=r_i: _val(k, j, r + r_i) + 10000)
+                names.append(set())
+                recs.append(dict(kind="add", label=None, cname=cname, tq=None, colid=id(o)))
+        _known_exclusions_simple(recs, case, info)
+        stmt = select(*objs).select_from(frm).where(role[0].c.id <= NBASE).order_by(role[0].c.id).set_label_style(_style(case["style"]))
+        expected = [tuple(f(r) for f in fns) for r in range(1, NBASE + 1)]
+        return stmt, objs, names, expected
+
+    built = [build(*perms[0]), build(*perms[1])]
+    moved = any(o1 is not o2 for o1, o2 in zip(built[0][1], built[1][1]))
+    info["legacy_names"] = set()
+    info["style"] = case["style"]
+    hits = 0
+    for step, which in enumerate((0, 1, 0, 1)):
+        stmt, objs, names, expected = built[which]
+        res = world.conn.execute(stmt)
+        if step > 0 and res.context.cache_hit is CacheStats.CACHE_HIT:
+            hits += 1
+        try:
+            _verify(res, objs, names, expected, case, classes, info, where=f"[cache-swap exec {step + 1}: statement {which + 1}] ")
+        except Violation as v:
+            if step > 0 and v.signature.startswith("C11/object-key/"):
+                raise Violation("C11/object-key/cache-hit-uses-cached-statement-positions", v.message, observed=v.observed, expected=v.expected)
+            raise
+    if moved and hits == 3:
+        info["nontrivial"] = True
+        classes.add("cache-swap-hit-objects-moved")
+    elif hits == 3:
+        classes.add("cache-swap-hit-same-positions")
+    else:
+        classes.add("cache-swap-cache-miss")
 
 
 def _shape_union(world, case, classes, info):
@@ -466,6 +582,7 @@ def _shape_union(world, case, classes, info):
     def build():
         s1, e1, _ = _join_select(world, case, info)
         info["legacy_names"] = {x.tq for x in e1 if x.tq}
+        info["style"] = case["style"]
         second = {"froms": case["union"]["froms"], "cols": case["union"]["cols"][: len(e1)], "style": case["union"]["style"]}
         while len(second["cols"]) < len(e1):
             second["cols"] = second["cols"] + case["union"]["cols"]
@@ -680,6 +797,8 @@ def check_select(case, ctx):
                 _shape_sub(world, case, classes, info)
             elif shape == "union":
                 _shape_union(world, case, classes, info)
+            elif shape == "cache_swap":
+                _shape_cache_swap(world, case, classes, info)
             else:
                 _shape_text(world, case, classes, info)
         except _Skip as e:
@@ -701,7 +820,7 @@ _textcol = st.fixed_dictionaries({"how": st.sampled_from(["table", "fresh", "fre
 
 @st.composite
 def _cases(draw):
-    shape = draw(st.sampled_from(["join", "join", "join", "sub", "cte", "union", "text_pos", "text_name", "text_plain", "text_loose"]))
+    shape = draw(st.sampled_from(["join", "join", "join", "sub", "cte", "union", "text_pos", "text_name", "text_plain", "text_loose", "cache_swap", "cache_swap"]))
     case = {
         "shape": shape,
         "label_length": draw(st.sampled_from([None, None, 6, 7, 8, 10, 12, 16, 20, 24, 30])),
@@ -718,6 +837,9 @@ def _cases(draw):
         }
     if shape == "union":
         case["union"] = {"froms": draw(st.lists(_from, min_size=1, max_size=2)), "cols": draw(st.lists(_col, min_size=1, max_size=6)), "style": draw(st.sampled_from(STYLES))}
+    if shape == "cache_swap":
+        case["swap"] = {"t": draw(st.integers(0, 2)), "n": draw(st.integers(0, 1)), "sub": draw(st.booleans()), "nlit": draw(st.integers(0, 1)),
+                        "perm": draw(st.integers(1, 5)), "lperm": draw(st.integers(0, 5))}
     if shape.startswith("text"):
         case["textcols"] = draw(st.lists(_textcol, min_size=1, max_size=6))
     return case
